@@ -35,6 +35,7 @@ var replTable = map[string]map[string]string{
 	"sync": {
 		"Mutex": "Mutex", "RWMutex": "RWMutex", "WaitGroup": "WaitGroup", "Once": "Once",
 		"Pool": "Pool", "Map": "SyncMap", "Locker": "Locker",
+		"Cond": "Cond", "NewCond": "NewCond", "OnceFunc": "OnceFunc", "OnceValue": "OnceValue", "OnceValues": "OnceValues",
 	},
 	"sync/atomic": {
 		"Bool": "AtomicBool", "Int32": "AtomicInt32", "Int64": "AtomicInt64", "Uint32": "AtomicUint32",
@@ -44,10 +45,17 @@ var replTable = map[string]map[string]string{
 		"StoreInt32": "AtomicStoreInt32", "StoreInt64": "AtomicStoreInt64", "StoreUint32": "AtomicStoreUint32", "StoreUint64": "AtomicStoreUint64",
 		"CompareAndSwapInt32": "AtomicCompareAndSwapInt32", "CompareAndSwapInt64": "AtomicCompareAndSwapInt64",
 		"CompareAndSwapUint32": "AtomicCompareAndSwapUint32", "CompareAndSwapUint64": "AtomicCompareAndSwapUint64",
+		"SwapInt32": "AtomicSwapInt32", "SwapInt64": "AtomicSwapInt64", "SwapUint32": "AtomicSwapUint32", "SwapUint64": "AtomicSwapUint64",
+		"SwapUintptr": "AtomicSwapUintptr", "SwapPointer": "AtomicSwapPointer",
+		"LoadUintptr": "AtomicLoadUintptr", "LoadPointer": "AtomicLoadPointer", "StoreUintptr": "AtomicStoreUintptr", "StorePointer": "AtomicStorePointer",
+		"AddUintptr": "AtomicAddUintptr", "CompareAndSwapUintptr": "AtomicCompareAndSwapUintptr", "CompareAndSwapPointer": "AtomicCompareAndSwapPointer",
+		"AndInt32": "AtomicAndInt32", "AndInt64": "AtomicAndInt64", "AndUint32": "AtomicAndUint32", "AndUint64": "AtomicAndUint64",
+		"OrInt32": "AtomicOrInt32", "OrInt64": "AtomicOrInt64", "OrUint32": "AtomicOrUint32", "OrUint64": "AtomicOrUint64",
 	},
 	"context": {
 		"WithCancel": "CtxWithCancel", "WithCancelCause": "CtxWithCancelCause", "WithTimeout": "CtxWithTimeout",
 		"WithDeadline": "CtxWithDeadline", "WithTimeoutCause": "CtxWithTimeoutCause", "WithDeadlineCause": "CtxWithDeadlineCause",
+		"AfterFunc": "CtxAfterFunc", "WithoutCancel": "CtxWithoutCancel",
 	},
 	"time": {
 		"Now": "TimeNow", "Since": "TimeSince", "Until": "TimeUntil", "After": "TimeAfter", "AfterFunc": "TimeAfterFunc",
@@ -65,8 +73,6 @@ var replTable = map[string]map[string]string{
 
 // names that would escape the scheduler if left on the real runtime
 var denied = map[string]map[string]bool{
-	"sync":      {"Cond": true, "NewCond": true, "OnceFunc": true, "OnceValue": true, "OnceValues": true},
-	"context":   {"AfterFunc": true, "WithoutCancel": true},
 	"os/signal": {"Notify": true, "NotifyContext": true},
 }
 
